@@ -41,7 +41,9 @@ Fixpoint xtree_eqb (a b : xtree) : bool :=
 
 (** ** The statement language (mirror of the Python subset that [__exit__] may use) *)
 Inductive xval := VNone | VTrue | VFalse | VTemp | VTName | VDest | VExc.
-Inductive xexpr := EC (v : xval) | EV (x : nat).
+(** [ENameOf e]: the path of the open file [e] ([Path(e.name)], [e.name]); used by the entry prologue of
+    [make_tempfile], which removes a temp file it still holds open. *)
+Inductive xexpr := EC (v : xval) | EV (x : nat) | ENameOf (e : xexpr).
 Inductive xtest :=
 | TIs (a b : xexpr) | TIsNot (a b : xexpr) | TTruth (e : xexpr)
 | TNot (t : xtest) | TAnd (a b : xtest) | TOr (a b : xtest).
@@ -79,7 +81,12 @@ Definition xenv := nat -> option xval.
 Definition xset (env : xenv) (x : nat) (v : xval) : xenv := fun y => if Nat.eqb y x then Some v else env y.
 Inductive xst := StN | StRet (truthy : bool) | StExc (e : xexc) | StBrk | StCont.
 
-Definition ev (env : xenv) (e : xexpr) : option xval := match e with EC v => Some v | EV x => env x end.
+Fixpoint ev (env : xenv) (e : xexpr) : option xval :=
+  match e with
+  | EC v => Some v
+  | EV x => env x
+  | ENameOf e' => match ev env e' with Some VTemp => Some VTName | _ => None end
+  end.
 (** None / True / False are singletons: identity with them is decided; identity of two other objects is not. *)
 Definition singleton (v : xval) : bool := match v with VNone | VTrue | VFalse => true | _ => false end.
 Definition xval_eqb (a b : xval) : bool :=
